@@ -279,6 +279,19 @@ func (w *World) Run(x *simkit.Ctx) {
 			{Op: "deliver", A: 4}, {Op: "deliver", A: 2}, {Op: "deliver", A: 1},
 		}
 	}
+	// C15 runs open, half of the time, with the history the in-memory governance mirrors are most
+	// exposed to: a stake is on the chain; the next block carries a producer vote; a copy of that
+	// block with a wrong state root arrives first (executed, votes applied in memory, then refused),
+	// then the genuine block.
+	if prop == "C15" && len(script) == 0 && x.CfgInt("govopening", func(r *simkit.Rng) int { return r.Pick(1, 1) }) == 1 {
+		kind := x.CfgInt("govkind", func(r *simkit.Rng) int { return []int{fStateRoot, fReceiptRoot}[r.Intn(2)] })
+		script = []*simkit.Step{
+			{Op: "tx", K: []int{1, 0, 1, 3}, V: 1}, {Op: "build"}, {Op: "deliver", A: 0},
+			{Op: "tx", K: []int{1, 0, 1, 4}, V: 1}, {Op: "build"},
+			{Op: "forge", A: 1, B: 0, C: kind},
+			{Op: "deliver", A: 2}, {Op: "deliver", A: 1},
+		}
+	}
 	gen := func(r *simkit.Rng) *simkit.Step {
 		if len(x.Case.Steps) >= nsteps+len(script) || e.dead {
 			return nil
